@@ -59,6 +59,7 @@ var Curated = []string{
 	"echo ${x}2>f", "\"$x\"2>f", "''2>f", "$(x)2>&1", "`x`0<&3", "$((1+1))2>>f", ": \\>2>f", "${x}2<<E\nb\nE\n", "a'b'2>f", "a2>f", "2>f", "\\22>f",
 	"cat <<''\nbody\n\n", "cat <<\"\"\n$x\n\n", "<<''\nx\n", "cat <<''\n$x line\n\n", "cat <<E\n$(())\nE\n", "cat <<$(())\nx\n$(())\n", "cat <<E\n$((  ))\n$((\n))\nE\n", "echo $(()) $((  ))\n", "(( ))\n",
 	"for x; ;", "for x in a\n&", "case x ;", "case x\n\n)", "$é", "\"5$€\"", "$日本", "$\xff", "${é}", "é$",
+	"cat <<-E\n\t\t\n\tE\n", "cat <<-E\n\t", "cat <<-E\n\t\t\nE", "cat <<-E\n\t\n", "cat <<-'E'\n\t\t\t", "cat <<E\n\t\t\nE\n",
 	"${#}", "${##}", "${#?}", "${#-}", "${#x}", "${#:-a}", "${x%%}", "${x%%%}", "${x:}", "${x:a}", "${}", "${1a}", "$1a", "$10", "${10}",
 }
 
@@ -119,6 +120,23 @@ func AliasTable(s *Source) [][2]string {
 	values := []string{
 		"a", "b", "b ", "a ", "cmd x", "echo hi ", "ll", "ll -l", "a; b", "a | b", "a && ", "if a; then", "{ a;", "(", "$(", "\"", "'", "x=1", "x=1 ",
 		"> f", "<<E", "b\n", "a\nb", "", " ", "for i in", "case x in", "! ", "cat <<E\nbody\nE\n", "`", "a #c", "#", "fi", "done", "}", "a \\",
+	}
+	if s.Chance(1, 6) {
+		// cooperating aliases: an outer value that begins with another alias (consumed completely) and later
+		// opens a substitution or a quotation; trailing-blank chains into a value with an operator
+		tables := [][][2]string{
+			{{"a", "b $(ls | wc -l"}, {"b", "echo"}},
+			{{"a", "b $(ls | wc -l)"}, {"b", "echo"}},
+			{{"cmd", "ll `x"}, {"ll", "ls"}},
+			{{"cmd", "ll `x y` z"}, {"ll", "ls -l"}},
+			{{"a", "b $((1 +"}, {"b", "x1"}, {"x1", "x1 "}},
+			{{"a", "b $((1 + 2)) c"}, {"b", "b"}},
+			{{"a", "b \"$(c"}, {"b", "echo "}, {"echo", "cat"}},
+			{{"a", "b "}, {"b", "a $(b"}, {"cat", "a"}},
+			{{"if", "b "}, {"b", "if a; then $(x"}},
+			{{"a", "b ${x:-$(c"}, {"b", "ll "}, {"ll", "ls"}},
+		}
+		return tables[s.Intn(len(tables))]
 	}
 	n := 1 + s.Intn(5)
 	m := map[string]string{}
